@@ -37,6 +37,9 @@ def readbacks(r):
         rb["pc"] = st.sample(s["pc"], grid="control" if d["pc"] == "control+" else "control-")[1]
     if d["pg"]:
         rb["pg"] = st.value(s["pg"])
+    rb["DTc"] = st.sample(st.DT_control, grid="control")[1]
+    rb["DTi"] = st.sample(st.DT, grid="integrator")[1]
+    rb["DTci"] = st.sample(st.DT_control, grid="integrator")[1]
     rb["T"] = st.value(st.T)
     rb["t0"] = st.value(st.t0)
     rb["tf"] = st.value(st.tf)
@@ -87,6 +90,7 @@ def compare_case(d, want=("rows", "obj"), full_alphabet=True, return_rows=False)
     """Run one case.  Returns CaseResult.  Exceptions raised inside rockit are observations."""
     import casadi as ca
     res = CaseResult(d)
+    why_not = RT.placeable(d)
     try:
         r = P.declare(d)
         rb = readbacks(r)
@@ -94,9 +98,15 @@ def compare_case(d, want=("rows", "obj"), full_alphabet=True, return_rows=False)
     except Exception as e:
         import sys
         fr = rockit_frame(sys.exc_info()[2])
-        res.exception = dict(type=type(e).__name__, msg=str(e)[:300], frame=fr)
         if fr is None and "casadi" not in str(type(e)).lower() and not isinstance(e, RuntimeError):
             raise
+        if why_not is not None:
+            res.rejected = True      # ill-posed for this method and rejected: as the statement demands
+            return res
+        res.exception = dict(type=type(e).__name__, msg=str(e)[:300], frame=fr)
+        return res
+    if why_not is not None:
+        res.add("reject", "accepted", why_not)
         return res
     sd = get_seed()
     # points range over the decision vector AND the inactive symbols the read-backs mention
@@ -162,6 +172,8 @@ def compare_case(d, want=("rows", "obj"), full_alphabet=True, return_rows=False)
         for o, msg in tr.notes:
             res.add(o, "value", msg)
         # time vectors
+        if tr.tc_declared is not None and not NL.close(tr.tc, tr.tc_declared, 1e-6):
+            res.add("time:control", "value", "density grid %s vs equidistributed %s" % (tr.tc, tr.tc_declared))
         if not NL.close(q["tc"].reshape(-1), tr.tc, 1e-9) or not NL.close(q["tc_time"].reshape(-1), tr.tc, 1e-9):
             res.add("time:control", "value", "sampled control grid %s vs declared %s" % (q["tc"].reshape(-1), tr.tc))
         ti_ref = np.array([t for row in tr.ti for t in row] + [tr.tc[-1]])
@@ -169,6 +181,16 @@ def compare_case(d, want=("rows", "obj"), full_alphabet=True, return_rows=False)
             res.add("time:integrator", "value", "sampled integrator grid %s vs %s" % (q["ti"].reshape(-1), ti_ref))
         if not NL.close(float(q["T"].reshape(-1)[0]), tr.T, 1e-9) or not NL.close(float(q["t0"].reshape(-1)[0]), tr.t0, 1e-9) or not NL.close(float(q["tf"].reshape(-1)[0]), tr.t0 + tr.T, 1e-9):
             res.add("time:horizon", "value", "value(T,t0,tf)=%s,%s,%s vs %s,%s" % (q["T"], q["t0"], q["tf"], tr.T, tr.t0))
+        lens = np.diff(tr.tc)
+        dtc_ref = np.concatenate([lens, lens[-1:]])
+        if not NL.close(q["DTc"].reshape(-1), dtc_ref, 1e-9):
+            res.add("time:DT_control", "value", "%s vs %s" % (q["DTc"].reshape(-1), dtc_ref))
+        dti_ref = np.concatenate([np.repeat(lens / tr.M, tr.M), lens[-1:] / tr.M])
+        if not NL.close(q["DTi"].reshape(-1), dti_ref, 1e-9):
+            res.add("time:DT", "value", "%s vs %s" % (q["DTi"].reshape(-1), dti_ref))
+        dtci_ref = np.concatenate([np.repeat(lens, tr.M), lens[-1:]])
+        if not NL.close(q["DTci"].reshape(-1), dtci_ref, 1e-9):
+            res.add("time:DT_control", "value", "on integrator grid %s vs %s" % (q["DTci"].reshape(-1), dtci_ref))
         if d["method"] == "DC":
             tr_ref = np.array([tr.ti[k][l] + (tr.tc[k + 1] - tr.tc[k]) / tr.M * tau for k in range(tr.N) for l in range(tr.M) for tau in tr.col["tau"]])
             if not NL.close(q["tr"].reshape(-1), tr_ref, 1e-9):
